@@ -40,7 +40,8 @@ class FieldDatatype:
     gfapy.ArgumentError
       If **datatype** is not a valid datatype for tags.
     """
-    if fieldname in self.positional_fieldnames:
+    if fieldname in self.positional_fieldnames or \
+        fieldname in self.__class__.POSFIELDS:
       raise gfapy.RuntimeError(
         "Cannot set the datatype of {}\n".format(fieldname)+
         "The datatype of a positional field cannot be changed")
